@@ -20,7 +20,7 @@ from hypothesis import strategies as st
 from .. import gen, ref
 from ..core import Clause, Out, Property
 from ..env import L
-from ..lib import F, Q, case_flag, quiet
+from ..lib import ahash, F, Q, case_flag, quiet
 
 U_ = ref.U
 
@@ -412,11 +412,23 @@ def check_arbitrary(case):
             out.sample = {"n": n, "estimate": est, "sigma_1": _sigma1(A)}
     site2 = "power_iteration(arbitrary,return_eigenvalue=False)"
     np.random.seed(int(case["seed"]))
-    ok2, v2 = out.call(site2, quiet, L.utils.power_iteration, Q(A), **kw)
+    Aq2 = Q(A)
+    hA2 = ahash(Aq2)
+    ok2, v2 = out.call(site2, quiet, L.utils.power_iteration, Aq2, **kw)
+    out.true(site2 + ":argument unchanged", ahash(Aq2) == hA2, "the matrix was modified by the vector-only call")
     if ok2:
         v2 = _as_vec(out, site2, v2, n, (n, 1))
         if v2 is not None:
             _unit(out, site2, v2, TOL_UNIT_PI)
+    # the usual two-step use: the vector first, then the eigenpair OF THE SAME ARRAY - the second answer is about A
+    np.random.seed(int(case["seed"]))
+    ok3, r3 = out.call(site + "[after a vector-only call on the same array]", quiet, L.utils.power_iteration, Aq2,
+                       return_eigenvalue=True, **kw)
+    if ok3 and ok and isinstance(r3, tuple) and len(r3) == 2 and isinstance(r, tuple) and len(r) == 2:
+        e1, e3 = _real_scalar(out, site, r[1]), _real_scalar(out, site, r3[1])
+        if e1 is not None and e3 is not None:
+            out.le(site + ":same estimate after a vector-only call on the same array", abs(e3 - e1), 1e-9 * abs(e1) + 1e-300,
+                   f"first {e1!r}, after the vector-only call {e3!r}")
     return out
 
 
